@@ -452,6 +452,20 @@ def opt_combinators(E, frame, b, t, sts, c, quiet):
                     E.write_dest(s_i, frame, t, ('E', None, ((good, (r_i,)),)) if item == 'map' else r_i)
                     out.append(s_i)
             continue
+        if item == 'map_or' and cls and not is_res and hasattr(E, 'run_closure_once') and len(args) > 1:
+            # Option::map_or(default, f): the default for None, f(payload) (run once, paths unmerged) for Some
+            if bad in vs:
+                s_bad = st.copy() if good in vs else st
+                E.write_dest(s_bad, frame, t, args[1])
+                out.append(s_bad)
+            if good in vs:
+                ci, body = cls[0]
+                for s_i, r_i in E.run_closure_once(frame, b, t, st, ci, body, quiet, [vs[good][0]]):
+                    if r_i == BOT:
+                        continue
+                    E.write_dest(s_i, frame, t, r_i)
+                    out.append(s_i)
+            continue
         if item == 'map':
             parts = []
             if bad in vs:
